@@ -27,6 +27,9 @@ Definition mw_eqb (a b : mw) : bool :=
 (* condition under which an operation of the assembly is executed; atoms are numbered by the translator
    (gen_atoms describes them: "login configured", "password configured", "cors enabled", "mode == all", ...) *)
 Inductive cond := CTrue | CFalse | CAtom (a : nat) | CNot (c : cond) | CAnd (a b : cond) | COr (a b : cond).
+(* what an atom stands for in the source (the translator emits gen_atom_kinds, one per atom): Username != "",
+   Password != "", Cors.Enable, Mode == "<lit>", anything else *)
+Inductive atom_kind := AKLogin | AKPass | AKCors | AKMode (lit : string) | AKOther.
 
 Fixpoint cond_eval (env : nat -> bool) (c : cond) : bool :=
   match c with
